@@ -81,6 +81,12 @@ Check_TIMED(r) ==
   IN Failed(<< <<"H_calls_recorded", Cardinality(io) = r.calls>>,
                <<"every_call_armed_with_a_fresh_deadline", \A i \in io : armed(i)>> >>)
 
+\* C01 - REWRITE: the same frame objects (decoded messages) written through writer 1, writer 2 and writer 1 again
+Check_REWRITE(r) ==
+  Failed(<< <<"no_panic", ~r.panic>>,
+            <<"writes_some_frames", ParseAll(r.out1).ok /\ Len(ParseAll(r.out1).frames) = r.frames>>,
+            <<"a_frame_says_the_same_whatever_was_written_in_between", r.out2 = r.out1 /\ r.out3 = r.out1>> >>)
+
 -----------------------------------------------------------------------------
 \* C03 - a message definition (reflected Go struct `raw`) as initialised by the library:
 \* CRC_EXTRA and the base / extended payload sizes are those the spec derives
